@@ -113,6 +113,23 @@ func obsC06Cmd(in string) string {
 		case "checkwrite":
 			f := writeFile(dir, "journal.knut", DecodeJournal(rest).Text())
 			out = c06Repeat(dir, runs, lseed, []string{"check", "--write", f})
+		case "graph":
+			// rest = "<expected class or -> <knut command> ## name|content|name|content..." : an include GRAPH (files
+			// included from several places, cycles reachable over several routes), first file = root
+			p := strings.SplitN(rest, " ## ", 2)
+			hd := strings.Fields(p[0])
+			parts := strings.Split(p[1], "|")
+			root := ""
+			for i := 0; i+1 < len(parts); i += 2 {
+				f := writeFile(dir, vunesc(parts[i]), vunesc(parts[i+1]))
+				if i == 0 {
+					root = f
+				}
+			}
+			out = c06Repeat(dir, runs, lseed, append(hd[1:], root))
+			if hd[0] != "-" && !strings.HasPrefix(out, hd[0]+" ") {
+				out = strings.Replace(out, "runs=same", "diff expected class "+hd[0], 1)
+			}
 		}
 	})
 	return out
@@ -128,6 +145,54 @@ func genC06Imp(out *caseWriter, seed uint64, n int, _ []string) error {
 		r := newRng(seed, "C06imp", i)
 		ls := r.next() % 1000000
 		switch {
+		case i%10 == 2:
+			// include graphs that are not trees: a file included from two places (its directives are loaded once per
+			// include: C05_layout), cycles that can be entered over two routes (always an error: C14_cycle_is_error),
+			// run 16 times each.  Seeded change C06c-load-once-set kept a global set of loaded files: which of two
+			// racing parsers claimed a file decided between "include cycle" and a full report, and a file included
+			// twice was booked once.
+			txn := func(d int, desc, a, b string, q int) string {
+				return fmt.Sprintf("2021-03-%02d \"%s\"\n%s %s %d CHF\n\n", d, desc, a, b, q)
+			}
+			opens := "2021-01-01 open Assets:Bank\n2021-01-01 open Expenses:Food\n2021-01-01 open Income:Salary\n2021-01-01 open Equity:Opening\n\n"
+			var fs []string
+			add := func(name, content string) { fs = append(fs, vesc(name), vesc(content)) }
+			expect := "-"
+			switch shape := r.intn(5); shape {
+			case 0: // diamond: root -> a, b; a -> c; b -> c
+				add("root.knut", opens+"include \"a.knut\"\ninclude \"b.knut\"\n"+txn(1, "r", "Equity:Opening", "Assets:Bank", 1000))
+				add("a.knut", "include \"sub/c.knut\"\n"+txn(2, "a", "Income:Salary", "Assets:Bank", r.rangeInt(1, 500)))
+				add("b.knut", txn(3, "b", "Assets:Bank", "Expenses:Food", r.rangeInt(1, 50))+"include \"sub/c.knut\"\n")
+				add("sub/c.knut", txn(4, "c", "Assets:Bank", "Expenses:Food", r.rangeInt(1, 50))+txn(5, "c2", "Income:Salary", "Assets:Bank", 7))
+				expect = "OK"
+			case 1: // a file included twice by the same file and once more below
+				add("root.knut", opens+"include \"c.knut\"\ninclude \"a.knut\"\ninclude \"c.knut\"\n")
+				add("a.knut", "include \"c.knut\"\n"+txn(2, "a", "Income:Salary", "Assets:Bank", r.rangeInt(1, 500)))
+				add("c.knut", txn(4, "c", "Assets:Bank", "Expenses:Food", r.rangeInt(1, 50)))
+				expect = "OK"
+			case 2: // two files that include each other, both reachable from the root
+				add("root.knut", opens+"include \"a.knut\"\ninclude \"b.knut\"\n"+txn(1, "r", "Equity:Opening", "Assets:Bank", 1000))
+				add("a.knut", txn(2, "a", "Income:Salary", "Assets:Bank", r.rangeInt(1, 500))+"include \"b.knut\"\n")
+				add("b.knut", "include \"a.knut\"\n"+txn(3, "b", "Assets:Bank", "Expenses:Food", r.rangeInt(1, 50)))
+				expect = "ERR"
+			case 3: // a longer cycle a -> c -> b -> a entered at a and at b, with padding so that parse times differ
+				pad := strings.Repeat(txn(6, "pad", "Assets:Bank", "Expenses:Food", 1), r.rangeInt(0, 200))
+				add("root.knut", opens+"include \"a.knut\"\n"+pad+"include \"b.knut\"\n")
+				add("a.knut", txn(2, "a", "Income:Salary", "Assets:Bank", 5)+"include \"c.knut\"\n")
+				add("c.knut", strings.Repeat(txn(7, "c", "Assets:Bank", "Expenses:Food", 2), r.rangeInt(0, 200))+"include \"b.knut\"\n")
+				add("b.knut", "include \"a.knut\"\n"+txn(3, "b", "Assets:Bank", "Expenses:Food", 3))
+				expect = "ERR"
+			default: // a cycle below a diamond
+				add("root.knut", opens+"include \"a.knut\"\ninclude \"b.knut\"\n")
+				add("a.knut", "include \"c.knut\"\n"+txn(2, "a", "Income:Salary", "Assets:Bank", 5))
+				add("b.knut", "include \"c.knut\"\n"+txn(3, "b", "Assets:Bank", "Expenses:Food", 3))
+				add("c.knut", txn(4, "c", "Assets:Bank", "Expenses:Food", 1)+"include \"d.knut\"\n")
+				add("d.knut", "include \"c.knut\"\n")
+				expect = "ERR"
+			}
+			cmd := pick(r, []string{"balance --color=false", "print", "check", "balance --csv --months"})
+			items = append(items, caseIn{fmt.Sprintf("C06imp-%d-%d", seed, i), "C06.cmd",
+				fmt.Sprintf("graph 16 %d | %s %s ## %s", ls, expect, cmd, strings.Join(fs, "|"))})
 		case i%10 == 7:
 			// revolut2 with several currencies completed on the same days: one balance assertion per (day,
 			// currency), several per day (the C13 generator keeps to one currency per day)
